@@ -13,6 +13,7 @@ use crate::scenario::Scenario;
 use crate::sim::{self, Ending};
 use crate::transcript::{excise, walk, Expect, Piece, PROMPT};
 use hyeong::core::state::UnOptState;
+use hyeong::core::code::UnOptCode;
 use hyeong::core::{execute, parse};
 use hyeong::util::error::Error;
 use hyeong::util::io::ReadLine;
@@ -65,22 +66,164 @@ fn expand(sc: &Scenario) -> Vec<(String, Vec<Cmd>)> {
             v.push((l.clone(), Vec::new()));
         }
     }
+    if sc.knob("noise") == 1 {
+        add_noise(sc, &mut v);
+    }
     v
+}
+
+/// Comment text that is no part of any command (parse.rs ignores it between commands).
+const NOISE_WORDS: &[&str] = &["# 주석", "가나다", "// loop", "abc 123", "(note)", "~~", "-- 끝", "한글 comment 漢字", "0", "«»", "\t"];
+const NOISE_DOTS: &[&str] = &["...", "…", ".", "⋯ ", "⋮.", ". . ."];
+const NOISE_START: [char; 3] = ['혀', '하', '흐'];
+const NOISE_TAIL: &[&str] = &["", "나", "루", " comment", "지만"];
+
+/// Knob `noise`: comment text around the commands of a line, chosen so that the program is the same
+/// whether the lines are parsed one by one or as one file (on a parser that treats text between
+/// commands as the language describes):
+/// * words without any character of the language, before or after a line's commands;
+/// * filler dots at the start of a line whose predecessor (since the last `clear`) ends in a command
+///   with an area part, or that is the first line: dots there belong to no command;
+/// * a long-form start syllable (혀/하/흐) with no ending syllable of its class anywhere after it in
+///   the whole history: such a syllable starts nothing.
+fn add_noise(sc: &Scenario, v: &mut Vec<(String, Vec<Cmd>)>) {
+    let key = sc.plan.key ^ 0x4E01_5E00;
+    let class_of = |c: char| match c {
+        '엉' => Some(0usize),
+        '앙' | '앗' => Some(1),
+        '읏' | '읍' | '윽' => Some(2),
+        _ => None,
+    };
+    let mut last_end: [Option<usize>; 3] = [None; 3];
+    for (i, (text, cmds)) in v.iter().enumerate() {
+        if cmds.is_empty() {
+            continue;
+        }
+        for ch in text.chars() {
+            if let Some(k) = class_of(ch) {
+                last_end[k] = Some(i);
+            }
+        }
+    }
+    // None = first code line since the start or the last `clear`
+    let mut prev_has_area: Option<bool> = None;
+    for (i, (text, cmds)) in v.iter_mut().enumerate() {
+        if cmds.is_empty() {
+            if text.trim() == "clear" {
+                prev_has_area = None;
+            }
+            continue;
+        }
+        let h = simcore::mix(key ^ (i as u64) << 8);
+        let pick = |list: &[&'static str], salt: u64| list[(simcore::mix(h ^ salt) % list.len() as u64) as usize];
+        let k = ((h >> 8) % 3) as usize;
+        let mut lead = String::new();
+        let mut trail = String::new();
+        match h % 8 {
+            0 | 1 => {
+                trail.push(' ');
+                trail.push_str(pick(NOISE_WORDS, 1));
+            }
+            2 => {
+                lead.push_str(pick(NOISE_WORDS, 2));
+                lead.push(' ');
+            }
+            3 => {
+                if prev_has_area != Some(false) {
+                    lead.push_str(pick(NOISE_DOTS, 3));
+                }
+            }
+            4 | 5 => {
+                if last_end[k].map_or(true, |l| l <= i) {
+                    trail.push(' ');
+                    trail.push(NOISE_START[k]);
+                    trail.push_str(pick(NOISE_TAIL, 4));
+                }
+            }
+            6 => {
+                if last_end[k].map_or(true, |l| l < i) {
+                    lead.push(NOISE_START[k]);
+                    lead.push_str(pick(NOISE_TAIL, 5));
+                    lead.push(' ');
+                }
+            }
+            _ => {}
+        }
+        prev_has_area = Some(cmds.last().map_or(false, |c| c.area != RArea::Nil));
+        if !lead.is_empty() || !trail.is_empty() {
+            *text = format!("{}{}{}", lead, text, trail);
+        }
+    }
+}
+
+/// What the parser made of a text, as far as execution is concerned.
+fn sig(p: &[hyeong::core::code::UnOptCode]) -> Vec<(u8, usize, usize, String)> {
+    use hyeong::core::code::Code;
+    p.iter().map(|c| (c.get_type(), c.get_hangul_count(), c.get_dot_count(), format!("{:?}", c.get_area()))).collect()
 }
 
 impl C12 {
     pub fn run_mode(&self, sc: &Scenario, real: bool) -> RunOut {
         let mut out = RunOut::default();
         let mut lines = expand(sc);
-        // pre-condition with the real parser: line-wise parse == the command lists
-        for (text, cmds) in &lines {
-            if !cmds.is_empty() {
-                let parsed = parse::parse(text.clone());
-                if let Err(v) = check_parsed(cmds, &parsed) {
-                    out.violation = Some(v);
-                    return out;
+        // the whole program as `run` would parse it: per segment (since the last `clear`) the code lines joined
+        // by line breaks, parsed at once; and what the interpreter sees: every line parsed on its own
+        let line_parse: Vec<Vec<UnOptCode>> = lines.iter().map(|(text, cmds)| if cmds.is_empty() { Vec::new() } else { parse::parse(text.clone()) }).collect();
+        let mut whole: Vec<Vec<UnOptCode>> = line_parse.clone();
+        let mut parses_agree = true;
+        {
+            let mut segs: Vec<Vec<usize>> = vec![Vec::new()];
+            for (i, (text, cmds)) in lines.iter().enumerate() {
+                if cmds.is_empty() {
+                    if text.trim() == "clear" {
+                        segs.push(Vec::new());
+                    }
+                } else {
+                    segs.last_mut().unwrap().push(i);
                 }
             }
+            for seg in segs.iter().filter(|s| !s.is_empty()) {
+                let text = seg.iter().map(|&i| lines[i].0.as_str()).collect::<Vec<_>>().join("\n");
+                let w = parse::parse(text);
+                let by_lines: Vec<_> = seg.iter().flat_map(|&i| sig(&line_parse[i])).collect();
+                if sig(&w) == by_lines {
+                    continue;
+                }
+                // the two parses differ: attribute the whole parse's commands to lines by their reported line number
+                parses_agree = false;
+                for &i in seg {
+                    whole[i].clear();
+                }
+                let mut last = 0usize;
+                for c in w {
+                    let ln = c.get_location().0;
+                    if ln < 1 || ln > seg.len() || ln < last {
+                        out.skipped = Some("whole and line-wise parse differ and the commands cannot be attributed to lines");
+                        return out;
+                    }
+                    last = ln;
+                    whole[seg[ln - 1]].push(c);
+                }
+            }
+        }
+        if parses_agree {
+            // pre-condition with the real parser: line-wise parse == the command lists
+            for (i, (_, cmds)) in lines.iter().enumerate() {
+                if !cmds.is_empty() {
+                    if let Err(v) = check_parsed(cmds, &line_parse[i]) {
+                        if sc.knob("noise") == 1 && check_parsed(cmds, &parse::parse(reflang::program_source(cmds))).is_ok() {
+                            // the parser reads the comment text differently from what the generator assumed, but in
+                            // the same way line by line and as a whole: the meaning of comment text is not this property
+                            out.skipped = Some("comment text changes the parse, the same way whole and line by line");
+                            return out;
+                        }
+                        out.violation = Some(v);
+                        return out;
+                    }
+                }
+            }
+        } else {
+            out.add("whole_and_linewise_parse_differ", 1);
         }
         // reference pre-flight, segment by segment: input-free, small values, terminating lines
         let mut m = Machine::new();
@@ -156,9 +299,14 @@ impl C12 {
         // oracle: the whole program through the real execute::execute, recorded per line
         let mut kinds: Vec<LineKind> = Vec::new();
         let mut oracle_problem = false;
-        let (_e, _, _w) = sim::run_process(simcore::Plan::default(), Vec::new(), || {
+        let mut oracle_plan = simcore::Plan::default();
+        if !parses_agree {
+            // the reference pre-flight knows the intended program only: bound the run by the step clock
+            oracle_plan.tick_budget = steps_total + 300;
+        }
+        let (_e, _, _w) = sim::run_process(oracle_plan, Vec::new(), || {
             let mut state = Some(UnOptState::new());
-            for (text, cmds) in &lines {
+            for (li, (text, cmds)) in lines.iter().enumerate() {
                 if cmds.is_empty() {
                     kinds.push(match text.trim() {
                         "clear" => {
@@ -171,9 +319,8 @@ impl C12 {
                     });
                     continue;
                 }
-                // the whole program is parsed at once: commands of this line come from
-                // parsing the line's text exactly as `run` would parse the file
-                let parsed = parse::parse(text.clone());
+                // the commands `run` finds on this line of the whole program
+                let parsed = &whole[li];
                 let mut o: Vec<u8> = Vec::new();
                 let mut e: Vec<u8> = Vec::new();
                 let mut end = None;
@@ -261,6 +408,10 @@ impl C12 {
         out.shape = (code_lines as u64) << 16 ^ (steps_total.min(255)) << 4 ^ (jumps_back_to_earlier_line as u64) << 2 ^ (clear_between as u64) << 1 ^ model_exit as u64;
         if let Ending::Panic(msg) = &ending {
             out.violation = Some(Violation::new("crash", "no crash", format!("{} ; lines {:?}", msg, script)));
+            return out;
+        }
+        if !parses_agree && ending == Ending::Stop {
+            out.skipped = Some("whole and line-wise parse differ and the session ran into the step clock");
             return out;
         }
         // walk the transcript
@@ -480,6 +631,8 @@ impl Property for C12 {
         }
         sc.budget = 800;
         sc.cap_bits = 96;
+        // comment text around the commands (drawn last: everything above is as it was without it)
+        sc.set_knob("noise", rng.chance(25) as i64);
         sc
     }
     fn repair(&self, sc: &mut Scenario) -> bool {
@@ -529,7 +682,7 @@ impl Property for C12 {
     }
     fn assumptions(&self) -> Vec<String> {
         vec![
-            "lines are canonical spellings of whole commands; the real parser is checked to return the same commands per line (counted when it does not)".into(),
+            "lines are canonical spellings of whole commands, a quarter of the histories with comment text around them (words, filler dots, dangling start syllables) placed where it belongs to no command; the real parser is checked to return the same commands per line (counted when it does not); the oracle runs what the real parser finds in the whole text".into(),
             "lines that would not terminate within the step budget, read input or leave the value cap are cut from the history by the reference pre-flight".into(),
         ]
     }
